@@ -179,6 +179,29 @@ pub fn run(opts: &Opts) -> Run {
             Ok((a, t)) => format!("ok {} {} {} {}", a, t[0], t[1], t[2]),
             Err(_) => "fault".into(),
         };
+        // oracle: RFC 8878 §3.1.1.5, written independently (skipped where the RFC declares the data corrupt: Repeated_Offset1 - 1 = 0 or below)
+        if ov >= 1 && !(ov == 3 && ll == 0 && s[0] == 0) {
+            run.oracle_checks += 1;
+            let (a, t): (u32, [u32; 3]) = if ov > 3 {
+                (ov - 3, [ov - 3, s[0], s[1]])
+            } else if ll > 0 {
+                match ov {
+                    1 => (s[0], s),
+                    2 => (s[1], [s[1], s[0], s[2]]),
+                    _ => (s[2], [s[2], s[0], s[1]]),
+                }
+            } else {
+                match ov {
+                    1 => (s[1], [s[1], s[0], s[2]]),
+                    2 => (s[2], [s[2], s[0], s[1]]),
+                    _ => (s[0] - 1, [s[0] - 1, s[0], s[1]]),
+                }
+            };
+            let want = format!("ok {} {} {} {}", a, t[0], t[1], t[2]);
+            if out != want {
+                run.fail("C14", "offsetHistory_eq_rfc", format!("do_offset_history({}, {}, {:?}) = `{}`, RFC 8878 says `{}`", ov, ll, s, out, want), format!("tables of_hist {} {} {} {} {}", ov, ll, s[0], s[1], s[2]));
+            }
+        }
         run.case(format!("tables of_hist {} {} {} {} {}", ov, ll, s[0], s[1], s[2]), out);
     };
     for ov in 0u32..=8 {
